@@ -3,26 +3,28 @@
 From AB Require Import Prelude PySeq RepeatedLib Repeated Fields RepeatedProofs RepeatedLayout RepeatedInsert RepeatedCells RepeatedSep RepeatedOps.
 From Coq Require Import ZifyBool Permutation.
 
-Definition del_tail (A M B : list cell) : list cell :=
+Definition del_tail (A M B : list cell) (post : list tok) : list cell :=
   match A, M, B with
   | [], m0 :: _, b0 :: B' => mkcell (c_gap m0) (c_body b0) :: B'
+  | _ :: _, m0 :: _, b0 :: B' =>
+      if keep_gap (c_gap m0) (flat B ++ post) then mkcell (c_gap m0 ++ c_gap b0) (c_body b0) :: B' else B
   | _, _, _ => B
   end.
 
-Lemma del_res_tail : forall A M B, del_res A M B = A ++ del_tail A M B.
-Proof. intros [|a A] [|m0 M] [|b0 B]; reflexivity. Qed.
+Lemma del_res_tail : forall A M B post, del_res A M B post = A ++ del_tail A M B post.
+Proof. intros [|a A] [|m0 M] [|b0 B] post; try reflexivity. cbn [del_res del_tail]. now destruct (keep_gap _ _). Qed.
 
-Lemma del_tail_tail : forall A M B, tail_eq B (del_tail A M B).
-Proof. intros [|a A] [|m0 M] [|b0 B]; cbn; auto. Qed.
+Lemma del_tail_tail : forall A M B post, tail_eq B (del_tail A M B post).
+Proof. intros [|a A] [|m0 M] [|b0 B] post; cbn [del_tail tail_eq]; auto. destruct (keep_gap _ _); cbn; auto. Qed.
 
-Lemma del_tail_bodies : forall A M B, map c_body (del_tail A M B) = map c_body B.
-Proof. intros [|a A] [|m0 M] [|b0 B]; reflexivity. Qed.
+Lemma del_tail_bodies : forall A M B post, map c_body (del_tail A M B post) = map c_body B.
+Proof. intros [|a A] [|m0 M] [|b0 B] post; try reflexivity. cbn [del_tail]. now destruct (keep_gap _ _). Qed.
 
-Lemma del_tail_items : forall A M B, map item_of (del_tail A M B) = map item_of B.
-Proof. intros [|a A] [|m0 M] [|b0 B]; reflexivity. Qed.
+Lemma del_tail_items : forall A M B post, map item_of (del_tail A M B post) = map item_of B.
+Proof. intros [|a A] [|m0 M] [|b0 B] post; try reflexivity. cbn [del_tail]. now destruct (keep_gap _ _). Qed.
 
-Lemma del_tail_len : forall A M B, zlen (del_tail A M B) = zlen B.
-Proof. intros [|a A] [|m0 M] [|b0 B]; reflexivity. Qed.
+Lemma del_tail_len : forall A M B post, zlen (del_tail A M B post) = zlen B.
+Proof. intros [|a A] [|m0 M] [|b0 B] post; try reflexivity. cbn [del_tail]. now destruct (keep_gap _ _). Qed.
 
 Lemma list_set_slice_step1 : forall {A} (l : list A) (a b : Z) (xs : list A),
   0 <= a <= zlen l -> 0 <= b <= zlen l ->
@@ -80,13 +82,13 @@ Proof.
   cbn [r_start r_stop r_step]. replace (1 =? 1) with true by reflexivity.
   rewrite check_detachable_pass; [|eapply donors_ok_detachable; exact Hdon|exact Hnn].
   destruct (cut3 cs a (Z.max 0 (b - a))) as (A & M & B & -> & HA & HM); [lia|lia|lia|].
-  exists A, M, B, (ins_res seps sepsb A (del_tail A M B) fr vs).
+  exists A, M, B, (ins_res seps sepsb A (del_tail A M B post) fr vs).
   split; [reflexivity|].
   (* separators_before_last *)
   assert (Hsbl : exists sbl,
      match map item_of (A ++ M ++ B) with [] => Ok None | it0 :: _ => st_get_prev (fst it0) (lay pre pht (A ++ M ++ B) post) end = Ok sbl
-     /\ (A = [] -> forall b0 B', del_tail A M B = b0 :: B' ->
-           sbl = Some (tid (last (pre ++ pht :: c_gap b0) dft)) \/ (sbl = None /\ M ++ B = del_tail A M B))).
+     /\ (A = [] -> forall b0 B', del_tail A M B post = b0 :: B' ->
+           sbl = Some (tid (last (pre ++ pht :: c_gap b0) dft)) \/ (sbl = None /\ M ++ B = del_tail A M B post))).
   { destruct (A ++ M ++ B) as [|c0 rest] eqn:Ecs.
     - exists None. split; [reflexivity|]. intros -> b0 B' E. right. split; [reflexivity|].
       apply app_eq_nil in Ecs. destruct Ecs as [_ Ecs]. apply app_eq_nil in Ecs. destruct Ecs as [-> ->]. reflexivity.
@@ -99,23 +101,23 @@ Proof.
   destruct Hsbl as (sbl & -> & Hsbl).
   (* deletion *)
   assert (Hdel : del_tokens ph (lay pre pht (A ++ M ++ B) post) (map item_of (A ++ M ++ B)) a b
-                 = (lay pre pht (A ++ del_tail A M B) post, Ok tt)).
+                 = (lay pre pht (A ++ del_tail A M B post) post, Ok tt)).
   { rewrite <- del_res_tail. destruct M as [|m0 M'].
     - change (zlen (@nil cell)) with 0 in HM. rewrite del_tokens_noop by lia.
-      replace (del_res A [] B) with (A ++ B) by (now destruct A). reflexivity.
+      replace (del_res A [] B post) with (A ++ B) by (now destruct A). reflexivity.
     - rewrite zlen_cons in HM. pose proof (zlen_nonneg M').
       replace b with (zlen A + zlen (m0 :: M')) by (rewrite zlen_cons; lia). rewrite <- HA.
       apply del_layout; [exact Hwf|discriminate]. }
   rewrite Hdel.
   destruct (del_res_wf ph pre pht A M B post Hwf) as [Hwf1 Hsub]. rewrite del_res_tail in Hwf1, Hsub.
-  assert (Hdon1 : donors_ok fr (lay pre pht (A ++ del_tail A M B) post) vs).
+  assert (Hdon1 : donors_ok fr (lay pre pht (A ++ del_tail A M B post) post) vs).
   { eapply donors_ok_sub; [exact Hdon|apply Hwf1|exact Hsub]. }
-  assert (Hrl : zlen (A ++ M ++ B) - range_len (mkrng a b 1) = zlen (A ++ del_tail A M B)).
+  assert (Hrl : zlen (A ++ M ++ B) - range_len (mkrng a b 1) = zlen (A ++ del_tail A M B post)).
   { unfold range_len. cbn [r_start r_stop r_step]. rewrite !zlen_app, del_tail_len.
     replace (0 <? 1) with true by reflexivity.
     destruct (a <? b) eqn:E; [rewrite Z.div_1_r|]; lia. }
   rewrite Hrl. rewrite <- HA.
-  destruct (ins_layout ph seps sepsb Hseps Hsepsb pre pht A (del_tail A M B) post (map item_of (A ++ (M ++ B))) (M ++ B) vs sbl fr)
+  destruct (ins_layout ph seps sepsb Hseps Hsepsb pre pht A (del_tail A M B post) post (map item_of (A ++ (M ++ B))) (M ++ B) vs sbl fr)
     as (Hi & Hwf' & Hit); [exact Hwf1|reflexivity|exact Hsbl|exact Hdon1|].
   rewrite Hi. rewrite del_tail_items in Hit.
   assert (Hset : list_set_slice (map item_of (A ++ M ++ B)) (slice_from_range (mkrng (zlen A) b 1)) (map node_item vs)
@@ -131,7 +133,7 @@ Proof.
   rewrite Hset. rewrite Hit.
   split; [reflexivity|]. split; [exact Hwf'|]. split; [|split; [reflexivity|]].
   2:{ intro HS. apply Sep_ins. rewrite <- del_res_tail. now apply Sep_del. }
-  destruct (ins_res_shape seps sepsb A (del_tail A M B) fr vs) as (Nc & B' & E & E1 & E2).
+  destruct (ins_res_shape seps sepsb A (del_tail A M B post) fr vs) as (Nc & B' & E & E1 & E2).
   exists A, B, Nc, B'. split; [reflexivity|]. split; [exact E|]. split; [exact E1|].
   eapply tail_eq_trans; [apply del_tail_tail|exact E2].
 Qed.
